@@ -1,10 +1,10 @@
 # orchestrator configuration of the C16 check (loaded by tools/props.py)
-from stack import FULL_STACK, FULL_DEPS
+from stack import FULL_STACK, FULL_DEPS, QUIC_STACK, QUIC_DEPS, WT_STACK, WT_DEPS
 
 SPEC = dict(
     pkg="./harness/c16",
-    instrument=FULL_STACK + ["./p2p/protocol/autonatv2"],
-    deps=FULL_DEPS,
+    instrument=FULL_STACK + QUIC_STACK + WT_STACK + ["./p2p/protocol/autonatv2"],
+    deps=FULL_DEPS + QUIC_DEPS + WT_DEPS,
     level="exploration",
     level_text=("seeded search over populations of byzantine AutoNAT v2 clients (real nodes speaking the dial-request protocol "
                 "raw) x arrival patterns over virtual minutes x request shapes x dial-data scripts x schedules against the real "
@@ -13,13 +13,17 @@ SPEC = dict(
                 "stamped histories. Sampling, not proof."),
     level_note=("trusted: testing/synctest, the overlay rewrite, simnet's TCP model, the harness's by-construction "
                 "classification of request entries (public+TCP / surely ineligible / undetermined); math/rand's global source "
-                "is pinned per run (randseednop=0); not simulated: QUIC/WebTransport/WebRTC dial-backs, DNS addresses, real NATs "
-                "(the observed IP of a client is always its node's IP); a dialer host that runs identify is outside the "
+                "is pinned per run (randseednop=0); not simulated: WebRTC dial-backs, resolvable DNS addresses "
+                "(DNS forms are only offered where no transport claims them), NAT kinds other than an endpoint-independent source NAT; a dialer host that runs identify is outside the "
                 "registered check (development knob C16_BASIC_DIALER, see the observations at the top of sim_test.go)"),
     technique="deterministic simulation: byzantine protocol clients against the real server on simnet, dial log + stamped byte counts",
     design_ref="DESIGN.md section 6 (C16)",
     quick_s=60, thorough_s=600,
-    rule=("one run = one tape: stratum (general mix | concurrency: generous per-minute limits, bursts of one peer's held "
+    rule=("one run = one tape: world (TCP only | QUIC world: QUIC everywhere, WebTransport on the dialer and/or the nodes in a "
+          "third of the runs each, dialer's UDP black-hole counter allowed|absent|fresh, clients reach S over TCP or QUIC, the "
+          "first 0-3 clients behind one source NAT, UDP loss 0|5|15 %, duplication, latencies; address lists then mix tcp, "
+          "quic-v1, webtransport with current certhashes, private quic-v1, DNS forms, ws / webrtc-direct / p2p-circuit / "
+          "draft-29 quic); stratum (general mix | concurrency: generous per-minute limits, bursts of one peer's held "
           "dial-data requests | one tight per-minute limit: global, per-peer or dial-data | slot accounting: one peer keeps "
           "limit-1 requests in service, lets 1-2 more fail at a drawn stage, then opens limit+1 new ones), limits (global 1-14, "
           "per-peer 1-12, dial-data 1-10 per minute, 1-3 concurrent per peer), 2-5 clients (optionally two on one IP, optionally announcing the "
@@ -39,17 +43,22 @@ SPEC = dict(
             "concurrent-requests-of-one-peer-in-service", "concurrency-at-limit",
             "dial-data-requested", "dial-data-incomplete-no-dial", "dial-data-complete-then-answer",
             "server-reset-in-dial-data-phase", "server-timed-out-waiting-for-dial-data", "honest-flow-ok",
-            "long-address-list", "oversized-request-reset", "dial-back-over-connection-of-sibling-request"],
+            "long-address-list", "oversized-request-reset", "dial-back-over-connection-of-sibling-request",
+            "quic-world", "quic-dial-by-dialer-host", "dial-of-a-webtransport-address", "dial-back-over-quic-or-webtransport",
+            "dial-back-through-the-nat", "dial-to-the-nat-address-without-dial-data"],
     real=["ALL of the following run as tasks of the seeded scheduler (instrumented)",
           "p2p/protocol/autonatv2 server through New/Start with WithServerRateLimit (rate limiter, amplification policy, "
           "getDialData/readDialData, dialBack) and its client half on S",
           "dialer host D: real swarm (dial-only, NoDelayDialRanker, read-only black-hole detector), tcp dial path, upgrader, "
-          "noise, multistream, yamux, pstoremem under p2p/host/blank as in config.makeAutoNATV2Host",
+          "noise, multistream, yamux, pstoremem under p2p/host/blank as in config.makeAutoNATV2Host; in the QUIC world also the real "
+          "QUIC transport (quicreuse, quic-go) and optionally WebTransport (webtransport-go, http3) on every node",
           "service host S, 2-5 client nodes and the victim node: basic host, identify, swarm, tcp, upgrader, noise, multistream, "
           "yamux, pstoremem, eventbus - the clients' protocol logic is the harness's byzantine script"],
-    stubs=["wire: simnet TCP model (dial log = ground truth of what was dialled and when)",
+    stubs=["wire: simnet TCP model (dial log = ground truth of what was dialled and when), simnet UDP model with source NAT "
+           "(UDP filter = ground truth of every datagram the dialer host sends)",
            "byzantine clients: hand-written dial-request speakers and dial-back handlers on real nodes"],
     assume=["virtual clock of testing/synctest", "math/rand global source seeded per run (GODEBUG randseednop=0)",
-            "a client's connection to S always comes from the client's node IP (no NAT in the simulation)",
+            "a client's connection to S comes from its node IP, or from the NAT's public IP for clients behind simnet's source NAT",
+            "crypto/rand pinned per run (simrand)", "a datagram of the dialer host that starts with a QUIC v1 long-header Initial packet is a dial attempt",
             "the dialer host does not run identify (the configuration libp2p.New ships)"],
 )
